@@ -22,7 +22,16 @@ def run(sel):
     reg = [l.split()[0] for l in subprocess.check_output(['/verif/bin/vcheck', '-list'], text=True).splitlines()]
     ids = sorted(d for d in os.listdir('/verif/preserving') if os.path.isdir('/verif/preserving/' + d))
     if sel:
-        ids = [i for i in ids if any(s in i for s in sel)]
+        # an argument "file:<path>" selects the variants whose patch touches that path
+        files = [s[5:] for s in sel if s.startswith('file:')]
+        names = [s for s in sel if not s.startswith('file:')]
+        def touches(i):
+            try:
+                t = open('/verif/preserving/%s/patch.diff' % i).read()
+            except OSError:
+                return False
+            return any(('+++ b/' + f) in t for f in files)
+        ids = [i for i in ids if any(s in i for s in names) or (files and touches(i))]
     def one(i):
         r = subprocess.run(['/verif/tools/mutest.sh', '/verif/preserving/%s/patch.diff' % i] + reg, capture_output=True, text=True)
         killed = {}
